@@ -184,6 +184,13 @@ func runC14(r *rt.Runner) {
 				for j := range d {
 					d[j] = byte(rng.IntN(256))
 				}
+				if rng.IntN(5) == 0 {
+					// payloads that begin with (or are) hexadecimal text: a binary segment is
+					// converted whatever it holds
+					for j := 0; j < len(d) && (j < 4+rng.IntN(8) || rng.IntN(3) == 0); j++ {
+						d[j] = "0123456789abcdefABCDEF"[rng.IntN(22)]
+					}
+				}
 				segs = append(segs, pfbSeg{typ: byte(1 + rng.IntN(2)), data: d})
 			}
 			marker := rng.IntN(4) > 0
@@ -475,6 +482,35 @@ func runC14(r *rt.Runner) {
 			}
 			c.Nontrivial(append([]byte("mid|"+plan.desc), b0, b1), nil)
 		}
+	})
+
+	// one stray byte between two well-formed segments (a line break added by a
+	// transfer, a text segment declared one byte too short): the header position
+	// then holds <byte> 80 <type> ..., whose first byte is not the marker
+	r.Case("header/stray-byte", func(c *rt.C) {
+		rng := c.Rand()
+		for stray := 0; stray < 256; stray++ {
+			if stray == 0x80 {
+				continue
+			}
+			for _, first := range []pfbSeg{{1, []byte("%!PS\n")}, {2, []byte{1, 2, 3}}, {1, []byte("ends in a line break\r")}, {1, nil}} {
+				pre, want := framePFB([]pfbSeg{first}, false, nil)
+				rest, _ := framePFB([]pfbSeg{{byte(1 + stray%2), []byte("next segment")}}, true, nil)
+				stream := append(append(append([]byte(nil), pre...), byte(stray)), rest...)
+				plan := genCallerPlan(rng)
+				if allZero(plan.sizes) {
+					continue
+				}
+				chunks, ewd, _ := genDeliveryPlan(rng)
+				out, err, _, _ := drivePFB(stream, chunks, ewd, plan)
+				c.Eval()
+				c.Count("streams with one stray byte in front of a header")
+				if !errors.Is(err, pfb.ErrInvalidPFB) || !bytes.Equal(out, want) {
+					c.Violation("header-stray-byte", fmt.Sprintf("stray byte %02x between two segments: got %q, %v; expected %q then ErrInvalidPFB (caller %s)", stray, out, err, want, plan.desc), "")
+				}
+			}
+		}
+		c.Nontrivial([]byte("stray"), nil)
 	})
 
 	// declared lengths of 2^31 and more with only a few bytes following
